@@ -14,6 +14,7 @@ import (
 	"github.com/zitadel/logging"
 
 	"verif/harness/internal/c16"
+	"verif/harness/internal/c17"
 	"verif/harness/internal/c20"
 	"verif/harness/internal/callback"
 	"verif/harness/internal/logout"
@@ -47,6 +48,8 @@ func main() {
 		err = sso.Run(prop, *out, *tier, *seed)
 	case "C16":
 		err = c16.Run(*out, *tier, *seed)
+	case "C17":
+		err = c17.Run(*out, *tier, *seed)
 	case "C20":
 		err = c20.Run(*out, *tier, *seed)
 	default:
